@@ -1,5 +1,7 @@
 from vrun import Query
 SRC = 'C11_sync.cpp'
+import os
+SOLVER = ['--external-sat-solver', 'kissat'] if os.environ.get('VERIF_C11_SOLVER', 'kissat') == 'kissat' else []
 
 def queries():
     qs = []
@@ -7,13 +9,13 @@ def queries():
         qs.append(Query('semaphore_t%d_c%d' % (nthr, ncalls), SRC, 'h_semaphore',
                         'tlx::Semaphore: %d threads, each a symbolic script of %d calls from {signal(), signal(n), wait(delta, slack), try_acquire}, delta in {1,2}, slack in {0,1}, initial value 0..2; every interleaving at synchronisation granularity (%d scheduler rounds, checked to suffice)' % (nthr, ncalls, rounds),
                         defs=['SEMAPHORE', 'NTHR=%d' % nthr, 'NCALLS=%d' % ncalls], conc=True, nt=nthr + 1, rounds=rounds, tiers=('quick', 'thorough') if quick else ('thorough',),
-                        timeout=1800 if quick else 7200, unwind=4, max_unwind=80, witness=True, weight=nthr * ncalls))
+                        timeout=3600 if quick else 14400, unwind=4, max_unwind=80, witness=True, weight=nthr * ncalls, solver=SOLVER))
     for kind, nm in ((1, 'mutex'), (2, 'spin')):
         for nthr, gens, rounds, quick in ((1, 2, 12, True), (2, 2, 30, True), (3, 2, 48, False), (2, 3, 44, False)):
             qs.append(Query('barrier_%s_t%d_g%d' % (nm, nthr, gens), SRC, 'h_barrier',
                             'ThreadBarrier%s: %d threads crossing %d consecutive generations with a counting action; every interleaving at synchronisation%s granularity (%d rounds, checked to suffice)' % (nm.capitalize(), nthr, gens, ' and atomic-operation' if kind == 2 else '', rounds),
                             defs=['BARRIER=%d' % kind, 'NTHR=%d' % nthr, 'GENS=%d' % gens], conc=True, nt=nthr + 1, rounds=rounds, yield_atomics=(kind == 2),
-                            tiers=('quick', 'thorough') if quick else ('thorough',), timeout=1800 if quick else 7200, unwind=4, max_unwind=80, weight=nthr * gens))
+                            tiers=('quick', 'thorough') if quick else ('thorough',), timeout=3600 if quick else 14400, unwind=4, max_unwind=80, weight=nthr * gens, solver=SOLVER))
     return qs
 
 ASSUMPTIONS = ['threads are lazily sequentialised: context switches happen only at visible operations (mutex lock, condition-variable wait, join, atomic operations for the spin barrier); sound for data-race-free code, which these classes are by construction (all state under the mutex / atomics)',
